@@ -308,6 +308,7 @@ type c10Runner struct {
 	deaths      map[int]string // case id -> stderr signature of a child that died during it (reproduced)
 	hangs       map[int]bool
 	flaky       []string
+	flakyDeath  map[int]string // case id -> first line of the death that did not reproduce for it
 	pristine    map[string]c10Case
 	slowOnce    int
 	childRuns   int
@@ -512,6 +513,7 @@ func (rn *c10Runner) runBatch(cases []c10Case, tag string) {
 			if len(tail) > 900 {
 				tail = tail[:900]
 			}
+			rn.flakyDeath[inflight] = strings.SplitN(sig, "\n", 2)[0]
 			rn.flaky = append(rn.flaky, fmt.Sprintf("case %d (%s %s@%d %s %x): first attempt died (%s | %s), second attempt completed with %s", inflight, rest[idx].Kind, rest[idx].Region, rest[idx].Off,
 				rest[idx].Op, rest[idx].Val, sig, strings.ReplaceAll(tail, "\n", " | "), string(r2)))
 		case to2 && timedOut:
@@ -672,7 +674,7 @@ func c10(c *rig.Ctx) {
 		i = j
 	}
 	rn := &c10Runner{c: c, fixturesDir: fxDir, scratch: c.TempDir("c10run"), timeoutMs: 15000, allocLimit: 512,
-		results: map[int]c10Result{}, deaths: map[int]string{}, hangs: map[int]bool{}, pristine: map[string]c10Case{}}
+		results: map[int]c10Result{}, deaths: map[int]string{}, hangs: map[int]bool{}, pristine: map[string]c10Case{}, flakyDeath: map[int]string{}}
 	for id, fxid := range pristine {
 		rn.pristine[fxid] = *byID[id]
 	}
@@ -862,9 +864,27 @@ func c10(c *rig.Ctx) {
 		}
 		c.Sample(map[string]any{"fixture": fx.ID, "store": fx.Store, "chunks": len(fx.Chunks), "states": len(fx.States), "files": files})
 	}
+	// A death that did not reproduce for the case it was first charged to, but is reproduced — same panic message, which carries the
+	// input-specific numbers — by an adjacent case of the same batch, was that neighbour's: nothing is left unexplained.
+	explained := 0
 	for _, f := range rn.flaky {
+		var id int
+		fmt.Sscanf(f, "case %d", &id)
+		ok := false
+		if first := rn.flakyDeath[id]; first != "" {
+			for d := -2; d <= 2; d++ {
+				if d != 0 && strings.HasPrefix(rn.deaths[id+d], first) {
+					ok = true
+				}
+			}
+		}
+		if ok {
+			explained++
+			continue
+		}
 		c.Inconclusive("not reproducible on a second attempt: " + f)
 	}
+	c.Count("c10.deaths_charged_to_adjacent_case_first", explained)
 	if missing > 0 {
 		c.Inconclusive(fmt.Sprintf("%d cases produced no result", missing))
 	}
